@@ -179,6 +179,8 @@ func (w *dynCompressor) Reset(under io.Writer) {
 
 	w.idx = 0
 	w.end = 0
+	// drop tokens of the abandoned stream (their histogram is cleared by lz77.reset)
+	w.tokens = w.tokens[:0]
 
 	w.buf.reset()
 	w.lz77.reset()
